@@ -183,3 +183,25 @@ package witness
 //@   ensures[C05.u4] err == nil ==> set_arg == out && out != nil
 //@   // a refusal hands out nothing but what the store held when it was read
 //@   ensures[C05.u5] err != nil ==> out == nil || (seenOK && out == gl_val)
+
+// ---- common proof text format (C11): encPre(row, off, k) is the spec-level encoding of the first k hashes
+//@ func (Proof).Marshal
+//@   returns (s)
+//@   modifies sb_val
+//@   ensures[C11.m] s == encPre(rowOf(p), offOf(p), len(p))
+//@   invariant#1 0 <= $i && $i <= len(p) && sb_val[addr(b)] == encPre(rowOf(p), offOf(p), $i)
+//@   decreases#1 len(p) - $i
+
+//@ func (*Proof).Unmarshal
+//@   returns (err)
+//@   requires p != nil
+//@   modifies *p
+//@   // a proof written by Marshal reads back as the list that was written -- for every list of hashes, including the empty one
+//@   ensures[C11.u] forall row Map[bv64]Bytes, off bv64, k bv64 :: str(data) == encPre(row, off, k) && k < 4611686018427387904 ==> err == nil && len(deref(p)) == k
+//@   ensures[C11.v] forall row Map[bv64]Bytes, off bv64, k bv64 :: str(data) == encPre(row, off, k) && k < 4611686018427387904 && err == nil ==>
+//@                  (forall j int :: 0 <= j && j < k ==> str(deref(p)[j]) == str(row[off + j]))
+//@   // refused input leaves the destination untouched
+//@   ensures[C11.r] err != nil ==> deref(p) == old(deref(p))
+//@   invariant#1 0 <= $i && $i <= len(lines) && len(r) == len(lines) && r != nil
+//@   invariant#1 forall j int :: 0 <= j && j < $i ==> str(r[j]) == b64dec(lines[j])
+//@   decreases#1 len(lines) - $i
